@@ -9,6 +9,7 @@ import (
 	"os"
 	"path/filepath"
 	"runtime"
+	"runtime/pprof"
 	"strings"
 	"time"
 
@@ -44,6 +45,7 @@ func main() {
 	smtTrace := flag.String("smt-trace", "", "write solver dialogue to <prefix>.<worker>.smt2")
 	progress := flag.Int("progress", 0, "print progress to stderr every N seconds")
 	notab := flag.Bool("no-tabulate", false, "do not tabulate wide mul/div nodes over small-domain variables")
+	cpuprofile := flag.String("cpuprofile", "", "write a CPU profile of the exploration")
 	pattern := flag.String("pattern", "./klog/...", "package pattern to load")
 	selftest := flag.Int("selftest-simp", 0, "run N rounds of the simplifier self-test and exit")
 	flag.Parse()
@@ -81,6 +83,10 @@ func main() {
 			fmt.Sscan(v, &x)
 			if k == "_split" {
 				j.MaxSplit = int(x)
+				continue
+			}
+			if k == "_paths" {
+				j.MaxPaths = int(x)
 				continue
 			}
 			j.Params[k] = x
@@ -145,6 +151,11 @@ func main() {
 	eng.NoTabulate = *notab
 	eng.Progress = *progress
 	eng.SMTTrace = *smtTrace
+	if *cpuprofile != "" {
+		f, _ := os.Create(*cpuprofile)
+		pprof.StartCPUProfile(f)
+		defer pprof.StopCPUProfile()
+	}
 	res, err := eng.Run(jobs)
 	if err != nil {
 		fatal(err)
